@@ -31,13 +31,13 @@ from corr.c08 import bitrows, bits_tensor, close, flat, geom_sizes, parse_stream
 
 SPEC = {
     "prop": "C18",
-    "lean_targets": ["InfernoVerif.Props.C18", "InfernoVerif.Props.C09Glue", "InfernoVerif.Props.C18Glue", "InfernoVerif.Model.DelaySTDPF", "InfernoVerif.Gen.Dispatch"],
-    "prop_files": ["InfernoVerif/Props/C18.lean", "InfernoVerif/Props/C09Glue.lean", "InfernoVerif/Props/C18Glue.lean"],
+    "lean_targets": ["InfernoVerif.Props.C18", "InfernoVerif.Props.C09Glue", "InfernoVerif.Props.C18Glue", "InfernoVerif.Props.C18GlueProg", "InfernoVerif.Model.DelaySTDPF", "InfernoVerif.Gen.Dispatch"],
+    "prop_files": ["InfernoVerif/Props/C18.lean", "InfernoVerif/Props/C09Glue.lean", "InfernoVerif/Props/C18Glue.lean", "InfernoVerif/Props/C18GlueProg.lean"],
     "lemma_files": ["InfernoVerif/Lemmas/DelaySTDP.lean"],
     "model_files": ["InfernoVerif/Model/DelaySTDP.lean", "InfernoVerif/Model/DelaySTDPF.lean",
                     "InfernoVerif/Model/STDP.lean", "InfernoVerif/Model/STDPF.lean",
                     "InfernoVerif/Gen/StdKernelsR.lean", "InfernoVerif/Gen/StdKernelsF.lean"],
-    "translate": ["StdKernels", "Trace", "Routes", "DelaySTDPSites"],
+    "translate": ["StdKernels", "Trace", "Routes", "DelaySTDPSites", "DelaySTDPProg"],
     "driver_targets": ["InfernoVerif.Model.DelaySTDPF", "InfernoVerif.Gen.Dispatch"],
     "assumptions": [
         "theorems are over exact reals; the driver executes the same definitions over IEEE doubles; step times and externally set delays are dyadic so that "
